@@ -372,7 +372,7 @@ func (g *Gen) verifyFunc(ct *Contract) (fg *FnGen, err error) {
 		// a captured variable that neither the enclosing function's callees nor any of its closures can write keeps its
 		// content across the calls made by this closure
 		if pt, ok := fv.Type().Underlying().(*types.Pointer); ok && freeVarReadOnly(fn, i) {
-			fg.stackCells = append(fg.stackCells, stackCell{ref: t, ty: pt.Elem()})
+			fg.stackCells = append(fg.stackCells, stackCell{ref: t, ty: pt.Elem(), src: fv})
 		}
 	}
 	env := fg.baseEnv(fr, st)
